@@ -4,9 +4,9 @@ package verifharness
 
 import (
 	"encoding/json"
-	"runtime/debug"
 	"fmt"
 	"os"
+	"runtime/debug"
 	"strings"
 	"testing"
 
@@ -81,9 +81,9 @@ func dumpFailure(prop string, w *world.World, rec *world.ScanRecord, v world.Vio
 
 // historyOpts configures one history check.
 type historyOpts struct {
-	prop     string
-	profile  *world.Profile
-	col      *stats.Collector
+	prop    string
+	profile *world.Profile
+	col     *stats.Collector
 	// classify returns the non-triviality keys of a scan (empty = trivial)
 	classify func(w *world.World, rec *world.ScanRecord) []string
 	// extra runs additional per-scan checks for this property
